@@ -999,6 +999,12 @@ centralised_messages = {
         "description": "Occurs when a datapoint has an invalid datatype; a Dataset is expected "
         "but a Scalar was found.",
     },
+    "1-3-1": {
+        "message": "Alias {alias} cannot be used: the Dataset already has a component "
+        "with that name.",
+        "description": "Raised when a Dataset alias collides with the name of one of "
+        "the Dataset's components.",
+    },
     "1-3-12": {
         "message": "Default arguments cannot be followed by non-default arguments.",
         "description": "Occurs when a function definition places non-default parameters "
